@@ -11,6 +11,7 @@ import (
 )
 
 type FnResult struct {
+	Dropped  []string // contract clauses that could not be interpreted on this tree
 	Fn       string
 	Kind     string // "contract", "sweep", "lemma"
 	Obls     []*Obligation
@@ -52,6 +53,7 @@ func verifyFunction(w *World, fn *ssa.Function, c *Contract, sweep bool) (res *F
 	defer func() {
 		res.Notes = e.notes
 		res.Lines = e.sc.lines
+		res.Dropped = e.dropped
 		if r := recover(); r != nil {
 			switch x := r.(type) {
 			case outsideSubset:
@@ -95,6 +97,7 @@ func verifyFunction(w *World, fn *ssa.Function, c *Contract, sweep bool) (res *F
 		c = normalizeCallKeys(c, fn)
 	}
 	fc.contract = c
+	fc.renames = localRenames(w, fn)
 	if c != nil {
 		fc.env = e.contractEnv(c, params, st, st)
 	} else {
@@ -104,7 +107,9 @@ func verifyFunction(w *World, fn *ssa.Function, c *Contract, sweep bool) (res *F
 	e.emitAxioms(fc.env)
 	if c != nil {
 		for _, rq := range c.Requires {
-			e.assume(st, e.trSpec(fc.env, rq.E).T)
+			if t, ok := e.clauseTerm(fc.env, rq); ok {
+				e.assume(st, t)
+			}
 		}
 	}
 	entry := st.clone()
@@ -122,7 +127,10 @@ func verifyFunction(w *World, fn *ssa.Function, c *Contract, sweep bool) (res *F
 			}
 		}
 		for i, en := range c.Ensures {
-			f := e.trSpec(post, en.E).T
+			f, okc := e.clauseTerm(post, en)
+			if !okc {
+				continue
+			}
 			lbl := en.Label
 			if lbl == "" {
 				lbl = fmt.Sprint(i)
@@ -171,9 +179,13 @@ func (e *Engine) frameAllowed(fc *fnCtx) map[string][]string {
 	env := e.contractEnv(c, fc.params, fc.entry, fc.entry)
 	allowed := map[string][]string{} // heap -> refs ("" = whole heap)
 	for _, m := range c.Modifies {
-		for _, loc := range e.designatorLocs(env, m) {
-			allowed[loc.heap] = append(allowed[loc.heap], loc.ref)
-		}
+		func() {
+			var dummy string
+			defer e.recoverClause("modifies "+specString(m), &dummy)
+			for _, loc := range e.designatorLocs(env, m) {
+				allowed[loc.heap] = append(allowed[loc.heap], loc.ref)
+			}
+		}()
 	}
 	fc.allowed = allowed
 	return allowed
@@ -320,7 +332,21 @@ func (e *Engine) checkCallKeys(fc *fnCtx, c *Contract) {
 			all = append(all, k)
 		}
 		sort.Strings(all)
-		panic(specError{fmt.Sprintf("%s: clause keyed by a call that does not occur in the function: %s (calls present: %s)", funcDisplayName(fc.fn), strings.Join(missing, ", "), strings.Join(all, ", "))})
+		for _, k := range missing {
+			why := fmt.Sprintf("%s: clause keyed by a call that does not occur in the function: %s (calls present: %s)", funcDisplayName(fc.fn), k, strings.Join(all, ", "))
+			for _, cl := range c.Asserts[k] {
+				e.dropClause(cl.Text, why)
+			}
+			for _, cl := range c.Assumes[k] {
+				e.dropClause(cl.Text, why)
+			}
+			if _, ok := c.Preserves[k]; ok {
+				e.dropClause("preserves["+k+"]", why)
+			}
+			if c.PreserveAll[k] {
+				e.dropClause("preserves["+k+"] *", why)
+			}
+		}
 	}
 }
 
@@ -366,4 +392,48 @@ func normalizeCallKeys(c *Contract, fn *ssa.Function) *Contract {
 		}
 	}
 	return &cc
+}
+
+// localsOf: the named local variables of fn (debug names of its allocs) with their types.
+func localsOf(fn *ssa.Function) map[string]string {
+	out := map[string]string{}
+	for _, b := range fn.Blocks {
+		for _, ins := range b.Instrs {
+			if a, ok := ins.(*ssa.Alloc); ok && a.Comment != "" {
+				t := types.TypeString(deref(a.Type()), nil)
+				if old, dup := out[a.Comment]; dup && old != t {
+					out[a.Comment] = "?"
+					continue
+				}
+				out[a.Comment] = t
+			}
+		}
+	}
+	return out
+}
+
+// localRenames: a local named in the baseline that no longer exists is identified with the only new local of the same
+// type, if there is exactly one: contracts name locals, and a pure rename must not look like a change of behaviour.
+func localRenames(w *World, fn *ssa.Function) map[string]string {
+	base := w.BaseLocals[funcDisplayName(fn)]
+	if len(base) == 0 {
+		return nil
+	}
+	cur := localsOf(fn)
+	out := map[string]string{}
+	for name, t := range base {
+		if _, still := cur[name]; still || t == "?" {
+			continue
+		}
+		var cands []string
+		for n2, t2 := range cur {
+			if _, was := base[n2]; !was && t2 == t {
+				cands = append(cands, n2)
+			}
+		}
+		if len(cands) == 1 {
+			out[name] = cands[0]
+		}
+	}
+	return out
 }
